@@ -144,32 +144,39 @@ lyd_free_leafref_links_rec(struct lyd_leafref_links_rec *rec)
 {
     LY_ARRAY_COUNT_TYPE u;
     struct lyd_leafref_links_rec *rec2;
+    const struct lyd_node_term *node, **leafref_nodes, **target_nodes;
 
     assert(rec);
 
+    /* the record is stored in the hash table, which is reallocated when removing another record shrinks it,
+     * so take over the links and do not access the record any more */
+    node = rec->node;
+    leafref_nodes = rec->leafref_nodes;
+    rec->leafref_nodes = NULL;
+    target_nodes = rec->target_nodes;
+    rec->target_nodes = NULL;
+
     /* remove links of leafref nodes */
-    LY_ARRAY_FOR(rec->leafref_nodes, u) {
-        if (lyd_get_or_create_leafref_links_record(rec->leafref_nodes[u], &rec2, 0) == LY_SUCCESS) {
-            LY_ARRAY_REMOVE_VALUE(rec2->target_nodes, rec->node);
+    LY_ARRAY_FOR(leafref_nodes, u) {
+        if (lyd_get_or_create_leafref_links_record(leafref_nodes[u], &rec2, 0) == LY_SUCCESS) {
+            LY_ARRAY_REMOVE_VALUE(rec2->target_nodes, node);
             if ((LY_ARRAY_COUNT(rec2->leafref_nodes) == 0) && (LY_ARRAY_COUNT(rec2->target_nodes) == 0)) {
-                lyd_free_leafref_nodes(rec->leafref_nodes[u]);
+                lyd_free_leafref_nodes(leafref_nodes[u]);
             }
         }
     }
-    LY_ARRAY_FREE(rec->leafref_nodes);
-    rec->leafref_nodes = NULL;
+    LY_ARRAY_FREE(leafref_nodes);
 
     /* remove links of target nodes */
-    LY_ARRAY_FOR(rec->target_nodes, u) {
-        if (lyd_get_or_create_leafref_links_record(rec->target_nodes[u], &rec2, 0) == LY_SUCCESS) {
-            LY_ARRAY_REMOVE_VALUE(rec2->leafref_nodes, rec->node);
+    LY_ARRAY_FOR(target_nodes, u) {
+        if (lyd_get_or_create_leafref_links_record(target_nodes[u], &rec2, 0) == LY_SUCCESS) {
+            LY_ARRAY_REMOVE_VALUE(rec2->leafref_nodes, node);
             if ((LY_ARRAY_COUNT(rec2->leafref_nodes) == 0) && (LY_ARRAY_COUNT(rec2->target_nodes) == 0)) {
-                lyd_free_leafref_nodes(rec->target_nodes[u]);
+                lyd_free_leafref_nodes(target_nodes[u]);
             }
         }
     }
-    LY_ARRAY_FREE(rec->target_nodes);
-    rec->target_nodes = NULL;
+    LY_ARRAY_FREE(target_nodes);
 }
 
 void
@@ -177,7 +184,7 @@ lyd_free_leafref_nodes(const struct lyd_node_term *node)
 {
     struct ly_ht *ht;
     uint32_t hash;
-    struct lyd_leafref_links_rec *rec;
+    struct lyd_leafref_links_rec *rec, key = {0};
 
     assert(node);
 
@@ -185,13 +192,14 @@ lyd_free_leafref_nodes(const struct lyd_node_term *node)
         return;
     }
 
-    /* free entry content */
+    /* free entry content, the record pointer is not valid afterwards */
     lyd_free_leafref_links_rec(rec);
 
     /* free entry itself from hash table */
     ht = LYD_CTX(node)->leafref_links_ht;
     hash = lyht_hash((const char *)&node, sizeof node);
-    lyht_remove(ht, rec, hash);
+    key.node = node;
+    lyht_remove(ht, &key, hash);
 }
 
 /**
